@@ -418,10 +418,11 @@ ItemKinds == {"rect", "circle", "line", "box", "text", "point", "defs", "shapete
               "polyline", "path", "nestedsvg", "gnested", "clip", "reuse",
               \* the same rect rendered from inside a control element or a plain container
               "inif", "inloop", "infor", "ing", "ina", "ifoff", "loop0",
-              "clipline"}      \* a horizontal line clipped to a square at its start: a box without area
+              "clipline",      \* a horizontal line clipped to a square at its start: a box without area
+              "gflip", "gflipx"}   \* mirrored: <g transform="scale(-1)">, <g transform="scale(-1 1)">
 ItemBoxes == {B(2, 6, 18, 14), B(-22, -9, -6, 7), B(40, 1, 47, 30)}
 Counts(k) == k \in {"rect", "circle", "line", "box", "text", "gtrans", "gscale", "shapetext", "usex", "usey", "usexy",
-                     "polyline", "path", "nestedsvg", "gnested", "clip", "reuse", "inif", "inloop", "infor", "ing", "ina", "clipline"}
+                     "polyline", "path", "nestedsvg", "gnested", "clip", "reuse", "inif", "inloop", "infor", "ing", "ina", "clipline", "gflip", "gflipx"}
 \* ("ifoff": inside <if test="0">, "loop0": inside <loop count="0"> - never rendered, adds nothing)
 \* the geometry an item contributes, given its base box
 Contribution(k, b) ==
@@ -432,6 +433,8 @@ Contribution(k, b) ==
       [] k = "usey" -> Shift(b, 0, -40)                                  \* <use href y="-10">
       [] k = "usexy" -> Shift(b, 80, -40)
       [] k = "gnested" -> Shift(B(2 * b.x1, 2 * b.y1, 2 * b.x2, 2 * b.y2), 12, -8)   \* translate(3 -2) outside scale(2)
+      [] k = "gflip" -> B(-b.x2, -b.y2, -b.x1, -b.y1)                 \* a mirrored box still has its edges in order
+      [] k = "gflipx" -> B(-b.x2, b.y1, -b.x1, b.y2)
       [] k = "clip" -> B(b.x1, b.y1, b.x1 + 4, b.y1 + 4)     \* clipped to a 1 x 1 clipPath at its corner
       [] k = "clipline" -> B(b.x1, b.y1, b.x1 + 4, b.y1)     \* the line y = y1 from x1 to x2, clipped likewise
       [] k = "reuse" -> Shift(b, 80, 40)                     \* instance of a template in <specs> at x/y offset
